@@ -23,7 +23,8 @@ ASSUMPTIONS = ["budgets: CPU <= 2 s + 20 s/MiB, allocation <= 64 x input + 64 Mi
 def plan(tier):
     if tier == "quick":
         return [("debug", 10, dict(budget=3000, strace=0)), ("asan", 2, dict(budget=500, strace=0))]
-    return [("debug", 16, dict(budget=60000, strace=1)), ("release", 8, dict(budget=40000, strace=0)), ("asan", 8, dict(budget=8000, strace=0))]
+    return [("debug", 16, dict(budget=60000, strace=1)), ("release", 8, dict(budget=40000, strace=0)), ("asan", 8, dict(budget=8000, strace=0)),
+            ("miri", 16, dict(budget=2000, strace=0, cap=25, jobs=2))]
 
 
 def shard(ctx):
@@ -51,14 +52,22 @@ def shard(ctx):
             jobs.append(("frontier", "exe-%s-%s" % (where, "terminated" if term else "unterminated"), seeds.build_exe(rng, where=where, terminated=term), {}))
     jobs.append(("frontier", "exe-old-url", seeds.build_exe(rng, needle="https://frontier.ffxiv.com", tail="/version_5_0_win/index.html"), {}))
     mine = [j for i, j in enumerate(jobs) if i % ctx.nshards == ctx.index] + [jobs[(ctx.index * 5 + 3) % len(jobs)]]
+    cap = P.get("cap")
+    if cap is not None:
+        # interpreter stage: the entry points that reach `unsafe` first (UTF-16 reinterpretation in the executable scan, inflate
+        # inside patch application, SHA-1 block view in the file-info builder), then the smallest remaining seed
+        prio = [j for j in jobs if j[0] in ("frontier", "zp.apply", "fiin")]
+        mine = [prio[ctx.index % len(prio)]] + sorted(mine, key=lambda j: len(j[2]))[:max(0, P.get("jobs", 2) - 1)]
     for kind, lab, data, opt in mine:
         budget = P["budget"] if kind != "zp.apply" else max(600, P["budget"] // 4)
-        muts = faults.mutations(data, rng, budget, big_endian=opt.get("big_endian", False), text=opt.get("text", False), dense_limit=opt.get("dense_limit", 1536))
+        muts = faults.mutations(data, rng, budget, big_endian=opt.get("big_endian", False), text=opt.get("text", False), dense_limit=opt.get("dense_limit", 1536), cap=cap)
         if opt.get("patch"):
             n = len(data)
             faults.run_batch(ctx, kind, data, muts, label=lab, must_not_be_ok=lambda m, n=n: m[1] == 0 and m[0] < n - 4)
         else:
             faults.run_batch(ctx, kind, data, muts, label=lab)
+    if cap is not None:
+        return      # interpreter stage: the fault batches only
     if ctx.index % 3 == 0:
         paths_and_dirs(ctx, rng)
     if ctx.index % 3 == 1:
